@@ -239,20 +239,55 @@ func c14History(r *ev.Run, p *prng.R, batch, hi int) {
 	}
 	st[sentinel] = srow
 	seenAll := false
+	lastTotal, still := -1, 0
 	for i := 0; i < 100000 && !seenAll; i++ {
 		seenAll = true
+		total, some := 0, false
 		for _, h := range hs {
 			l := h.snapshot()
+			total += len(l)
 			if len(l) == 0 || l[len(l)-1].UUID != sentinel {
 				seenAll = false
+			} else {
+				some = true
 			}
 		}
 		if !seenAll {
+			// decided logically: a handler holds the last event and no handler has received
+			// anything for 5000 polls (the dispatcher delivers each event to all handlers
+			// before the next one, so nothing more is coming)
+			if total == lastTotal {
+				still++
+			} else {
+				lastTotal, still = total, 0
+			}
+			if some && still > 5000 {
+				break
+			}
 			sleepShort()
 		}
 	}
 	if !seenAll {
-		r.Inconclusive("the sentinel event did not reach every handler (dispatcher stalled?)")
+		// Some handlers got the last event of the history and others did not, although the
+		// dispatcher has had 20 s without load: the handlers do not see the same sequence.
+		// (No handler at all having it is a stalled dispatcher: inconclusive.)
+		got, missing := 0, 0
+		var lens []int
+		for _, h := range hs {
+			l := h.snapshot()
+			lens = append(lens, len(l))
+			if len(l) > 0 && l[len(l)-1].UUID == sentinel {
+				got++
+			} else {
+				missing++
+			}
+		}
+		if got > 0 && missing > 0 {
+			r.Eval(1)
+			r.Violation("C14/handlers-disagree/event-never-delivered-to-some-handlers", fmt.Sprintf("%d of %d handlers never received the last event of the history (events per handler: %v)", missing, len(hs), lens), map[string]interface{}{"events_per_handler": lens})
+			return
+		}
+		r.Inconclusive("the sentinel event did not reach any handler (dispatcher stalled?)")
 		return
 	}
 	r.Eval(1)
@@ -345,5 +380,8 @@ func c14Child(r *ev.Run, batch int) {
 		p := prng.Derive(r.Seed, "C14", batch, hi)
 		r.LogCase(fmt.Sprintf("C14 batch=%d history=%d", batch, hi))
 		c14History(r, p, batch, hi)
+		if r.HasViolation("C14/handlers-disagree/event-never-delivered-to-some-handlers") {
+			return // every further history would wait for the same lost events
+		}
 	}
 }
